@@ -132,7 +132,7 @@ func c11Expected(c c11Case, stored []byte) (views [][]byte, labels []string, may
 				vs = append(vs, mask3k3y(vs[0]), mask3k3y(vs[1]))
 			}
 			return vs, []string{"adjacent key"}, false
-		case "redkey":
+		case "redkey", "adjacent-is-dir+redkey":
 			vs := dec(c11KeyR)
 			if wm != "none" {
 				vs = append(vs, mask3k3y(vs[0]), mask3k3y(vs[1]))
@@ -187,6 +187,13 @@ func c11Build(c c11Case) (root, rel string, err error) {
 		err = writeKey(dir, []byte("zz-not-hex"))
 	case "malformed+redkey":
 		if err = writeKey(dir, []byte("0011")); err == nil {
+			err = writeKey(rk, hexKey(c11KeyR))
+		}
+	case "adjacent-is-dir":
+		// a directory that happens to be called like the key file is no key file
+		err = os.MkdirAll(filepath.Join(dir, c.baseName()+".dkey"), 0o755)
+	case "adjacent-is-dir+redkey":
+		if err = os.MkdirAll(filepath.Join(dir, c.baseName()+".dkey"), 0o755); err == nil {
 			err = writeKey(rk, hexKey(c11KeyR))
 		}
 	case "redkey-is-file":
@@ -453,10 +460,29 @@ func c11LongNames(yield func(c11Case) bool) {
 	}
 }
 
+// c11KeyDirs: a directory named like the key file, beside the image or below REDKEY.
+func c11KeyDirs(yield func(c11Case) bool) {
+	seed := uint64(950000)
+	for _, ext := range []string{".iso", ".bin"} {
+		for _, wm := range []string{"none", "enc", "dec"} {
+			for _, ln := range []int{0x1070, 8 * 2048} {
+				for _, key := range []string{"adjacent-is-dir", "adjacent-is-dir+redkey"} {
+					for _, depth := range []int{0, 1} {
+						seed++
+						if !yield(c11Case{DirName: "PS3ISO", Ext: ext, Key: key, Depth: depth, Watermark: wm, Length: ln, Seed: seed*31 + 7, Net: seed%2 == 0}) {
+							return
+						}
+					}
+				}
+			}
+		}
+	}
+}
+
 func TestC11Product(t *testing.T) {
 	st := hx.NewStats("C11", "product")
 	if true {
-		st.MarkExhaustive("full product: 5 directory names x 4 extensions x 3 depths x 7 key layouts (incl. a regular file called REDKEY) x 3 watermarks x 6 file lengths x 2 prefixes (library or network route per case), plus 48 cases with a 255-byte image name")
+		st.MarkExhaustive("full product: 5 directory names x 4 extensions x 3 depths x 7 key layouts (incl. a regular file called REDKEY) x 3 watermarks x 6 file lengths x 2 prefixes (library or network route per case), plus 48 cases with a 255-byte image name and 48 with a directory named like the key file")
 	} else {
 		st.MarkExhaustive("all combinations of the precedence-relevant factors (key layout x watermark x {PS3ISO/.iso, other} x {0x1070, larger}); the remaining product is sampled 1/4")
 	}
@@ -464,7 +490,10 @@ func TestC11Product(t *testing.T) {
 		ok := true
 		c11Product(func(c c11Case) bool { ok = yield(c); return ok })
 		if ok {
-			c11LongNames(yield)
+			c11LongNames(func(c c11Case) bool { ok = yield(c); return ok })
+		}
+		if ok {
+			c11KeyDirs(yield)
 		}
 	}
 	hx.RunCases(t, st, all, runC11, hx.PropOpts{WriteAhead: true})
